@@ -251,27 +251,33 @@ pub fn wblock_enc_with<const M: usize, E: Fn(&[u8; 16]) -> [u8; 16]>(x: &[u8; M]
     }
     let mut i = 1;
     while i <= 2 * ((M + 15) / 16) && i <= 2 * n {
-        // 1) s <- r_1 ^ ... ^ r_{n-1}
-        let s = sum_from(block(&r, 1), &r, n);
-        // 2) r* <- r* ^ belt-block(s) ^ <i>
-        let mut q = r;
-        let v = xor16(&xor16(&star(&r, len), &e(&s)), &num128(i));
-        set_star(&mut q, len, &v);
-        // 3) r <- ShLo^128(r)
-        let mut sh = [0u8; M];
-        t = 0;
-        while t < M {
-            if t + 16 < len {
-                sh[t] = q[t + 16];
-            }
-            t += 1;
-        }
-        // 4) r* <- s
-        set_star(&mut sh, len, &s);
-        r = sh;
+        r = wblock_enc_round(&r, len, i, &e);
         i += 1;
     }
     Some(r)
+}
+
+/// One round (counter value i) of belt-wbl encryption on the `len`-octet word r (octets beyond len are 0 on return).
+pub fn wblock_enc_round<const M: usize, E: Fn(&[u8; 16]) -> [u8; 16]>(r: &[u8; M], len: usize, i: usize, e: E) -> [u8; M] {
+    let n = nblocks(len);
+    // 1) s <- r_1 ^ ... ^ r_{n-1}
+    let s = sum_from(block(r, 1), r, n);
+    // 2) r* <- r* ^ belt-block(s) ^ <i>
+    let mut q = *r;
+    let v = xor16(&xor16(&star(r, len), &e(&s)), &num128(i));
+    set_star(&mut q, len, &v);
+    // 3) r <- ShLo^128(r)
+    let mut sh = [0u8; M];
+    let mut t = 0;
+    while t < M {
+        if t + 16 < len {
+            sh[t] = q[t + 16];
+        }
+        t += 1;
+    }
+    // 4) r* <- s
+    set_star(&mut sh, len, &s);
+    sh
 }
 
 /// belt-wbl decryption, same conventions.
@@ -291,31 +297,37 @@ pub fn wblock_dec_with<const M: usize, E: Fn(&[u8; 16]) -> [u8; 16]>(y: &[u8; M]
     let mut c = 0;
     while c < 2 * ((M + 15) / 16) && c < 2 * n {
         let i = 2 * n - c;
-        // 1) s <- r*
-        let s = star(&r, len);
-        // 2) r <- ShHi^128(r)
-        let mut sh = [0u8; M];
-        t = 0;
-        while t < M {
-            if t >= 16 && t < len {
-                sh[t] = r[t - 16];
-            }
-            t += 1;
-        }
-        // 3) r* <- r* ^ belt-block(s) ^ <i>
-        let v = xor16(&xor16(&star(&sh, len), &e(&s)), &num128(i));
-        set_star(&mut sh, len, &v);
-        // 4) r_1 <- s ^ r_2 ^ ... ^ r_{n-1}
-        let r1 = sum_from(s, &sh, n);
-        t = 0;
-        while t < 16 {
-            sh[t] = r1[t];
-            t += 1;
-        }
-        r = sh;
+        r = wblock_dec_round(&r, len, i, &e);
         c += 1;
     }
     Some(r)
+}
+
+/// One round (counter value i) of belt-wbl decryption on the `len`-octet word r.
+pub fn wblock_dec_round<const M: usize, E: Fn(&[u8; 16]) -> [u8; 16]>(r: &[u8; M], len: usize, i: usize, e: E) -> [u8; M] {
+    let n = nblocks(len);
+    // 1) s <- r*
+    let s = star(r, len);
+    // 2) r <- ShHi^128(r)
+    let mut sh = [0u8; M];
+    let mut t = 0;
+    while t < M {
+        if t >= 16 && t < len {
+            sh[t] = r[t - 16];
+        }
+        t += 1;
+    }
+    // 3) r* <- r* ^ belt-block(s) ^ <i>
+    let v = xor16(&xor16(&star(&sh, len), &e(&s)), &num128(i));
+    set_star(&mut sh, len, &v);
+    // 4) r_1 <- s ^ r_2 ^ ... ^ r_{n-1}
+    let r1 = sum_from(s, &sh, n);
+    t = 0;
+    while t < 16 {
+        sh[t] = r1[t];
+        t += 1;
+    }
+    sh
 }
 
 /// Octet-string view of the crate's word-level block function, for use as `e`.
